@@ -5,7 +5,7 @@
    for line l. *)
 From Coq Require Import String List Bool Arith ZArith Permutation.
 From Coq Require Import PrimFloat.
-From Hpotk Require Import Base.Result Base.Str TermId.Model Hpoa.Float Hpoa.Model Hpoa.Proofs Hpoa.Range.
+From Hpotk Require Import Base.Result Base.Str TermId.Model Io.Model Hpoa.Float Hpoa.Model Hpoa.Proofs Hpoa.Range Hpoa.Text Hpoa.TextProofs.
 Import ListNotations.
 
 (* exactly one disease per distinct database id; per disease exactly one annotation per distinct
@@ -61,6 +61,24 @@ Proof. exact percent_range. Qed.
 Theorem C08_term_frequency_within_bounds :
   forallb (fun b => (fst b <=? term_frequency b)%float && (term_frequency b <=? snd b)%float) freq_bounds = true.
 Proof. exact term_frequency_within_bounds. Qed.
+
+(* text level: loading the lines of a file is scanning the header (either style), parsing every data
+   line (strip, TAB split, NOT, ';' lists, evidence, aspect, frequency classification) and then the
+   line-level loader the theorems above speak about; the version is the last #version / #date line
+   seen before the column header *)
+Theorem C08_text_level_factors : forall (cohort : Z) (salvage : bool) (cvt : list (string * float)) (lines : list string)
+  (ds : list disease) (v : option string),
+  load_text cohort salvage cvt lines = Ok (ds, v) ->
+  exists parsed,
+    Forall2 (fun ln l => parse_hpoa_line cvt ln = Ok l) (snd (scan true None lines)) parsed /\
+    load cohort salvage parsed = Ok ds /\ v = fst (scan true None lines).
+Proof. exact load_text_factors. Qed.
+
+Theorem C08_header_detection : forall (version : option string) (ln : string) (r : list string),
+  (sprefixb "database_id" ln = true -> sprefixb "#" ln = false -> scan true version (ln :: r) = (version, r)) /\
+  (sprefixb "#DatabaseID" ln = true -> scan true version (ln :: r) = (version, r)) /\
+  scan false version r = (version, r).
+Proof. exact (fun version ln r => conj (scan_header_line version ln r) (conj (scan_old_header_line version ln r) (scan_after_header version r))). Qed.
 
 (* non-vacuity: two lines of one phenotype fold to 5/13; a negated line; an inheritance line *)
 Example C08_example :
